@@ -24,7 +24,8 @@ const (
 )
 
 // zone names of the simulated database (built by the orchestrator under $ZONEINFO)
-var simZonesGood = []string{"Sim/Shanghai", "Sim/NewYork", "Sim/LordHowe", "Sim/Kathmandu", "UTC", "Asia/Shanghai", "Europe/London", ""}
+var simZonesGood = []string{"Sim/Shanghai", "Sim/NewYork", "Sim/LordHowe", "Sim/Kathmandu", "UTC", "Asia/Shanghai", "Europe/London", "",
+	"Etc/GMT+5", "Etc/GMT-3", "Etc/GMT+12", "Etc/GMT-14", "Etc/GMT", "America/St_Johns", "Asia/Kolkata", "Pacific/Chatham"}
 var simZonesBad = []string{"Sim/Missing", "Sim/Empty", "Sim/Torn", "Sim/Garbage", "No/Such_Zone", "../etc/passwd", "Sim"}
 
 type clockSample struct {
@@ -267,6 +268,9 @@ func (w *clockWorld) opNow(s *Stream) {
 
 func (w *clockWorld) opDate(s *Stream) {
 	y := int64(1 + s.Intn(9999))
+	if s.Intn(3) == 0 { // some years are asked for again and again
+		y = []int64{2023, 2024, 2000, 1999}[s.Intn(4)]
+	}
 	var m, d int64
 	if s.Bool(1, 2) {
 		m, d = int64(1+s.Intn(12)), int64(1+s.Intn(31))
